@@ -21,7 +21,8 @@ def main(argv):
         from .runner import load_check, run_one
         mod = load_check(argv[1])
         res = run_one(mod, int(argv[2]), argv[3] if len(argv) > 3 else "quick")
-        res.pop("scenario", None) if "-q" in argv else None
+        if "-q" in argv:
+            res.pop("trace", None)
         print(json.dumps(res, indent=1, default=str) if "-q" in argv else json.dumps(res, indent=1, default=str)[:20000])
         return 0
     cid = argv[0]
